@@ -79,15 +79,23 @@ pub struct Case {
     /// descriptors, each with its own path.
     #[serde(default)]
     pub tree: Option<u8>,
+    /// A further directory is watched through the `Events` iterator itself
+    /// (`Events::watch_directory` / `watch` / `watch_file` on a file in it)
+    /// once this many events have been yielded (`.0`), with method `.1`:
+    /// records for its watch descriptor in later reads are reported under its
+    /// path. (Half of the records with an unknown descriptor then carry it.)
+    #[serde(default)]
+    pub late: Option<(u8, u8)>,
 }
 
 const BUF_SIZE: usize = 272;
 const IN_IGNORED: u32 = 0x8000;
 const IN_Q_OVERFLOW: u32 = 0x4000;
 
-fn encode(rec: &Rec, wds: &[i32]) -> Vec<u8> {
+fn encode(rec: &Rec, wds: &[i32], late: Option<i32>) -> Vec<u8> {
     let wd = match rec.wd {
         Wd::Known(k) => wds[k as usize % wds.len()],
+        Wd::Unknown(n) if late.is_some() && n % 2 == 0 => late.unwrap(),
         Wd::Unknown(n) => 1000 + (n & 0xffff),
     };
     let (mask, name): (u32, &[u8]) = match rec.kind {
@@ -241,8 +249,9 @@ impl Property for C17 {
             proptest::collection::vec(prop_oneof![2 => Just(0u16), 3 => 1u16..(1 << 14)], 0..=3),
             proptest::option::weighted(0.25, 0u8..3),
             proptest::option::weighted(0.3, 0u8..4),
+            proptest::option::weighted(0.3, (prop_oneof![2 => Just(0u8), 5 => 1u8..6], 0u8..4)),
         )
-            .prop_map(|(watches, records, reads, keep, rewatch, interests, replace, tree)| Case { watches, records, reads, keep, rewatch, interests, replace, tree })
+            .prop_map(|(watches, records, reads, keep, rewatch, interests, replace, tree, late)| Case { watches, records, reads, keep, rewatch, interests, replace, tree, late })
             .boxed()
     }
 
@@ -504,6 +513,30 @@ fn run_case(case: &Case, ctx: &mut Ctx) {
         dirs[k] = link;
     }
 
+    // The directory watched later through the Events iterator: the kernel
+    // already has a watch for it (so its descriptor is known here), a10's
+    // table has not; inotify_add_watch on the same inode returns the same
+    // descriptor.
+    let mut late: Option<(PathBuf, i32, usize, u8)> = None;
+    if let Some((after, method)) = case.late {
+        let base = dirs[0].parent().unwrap().join("late");
+        let _ = std::fs::create_dir_all(&base);
+        let target = if method % 4 >= 2 { base.join("f") } else { base.clone() };
+        if method % 4 >= 2 {
+            let _ = std::fs::write(&target, b"x");
+        }
+        let c = std::ffi::CString::new(target.as_os_str().as_bytes()).unwrap();
+        let wd = unsafe { libc::inotify_add_watch(ifd, c.as_ptr(), libc::IN_ALL_EVENTS) };
+        if wd < 0 || wds.contains(&wd) {
+            ctx.infra("could not prepare the late watch");
+            return;
+        }
+        late = Some((target, wd, after as usize, method));
+    }
+    // Index of the read that holds the record after whose yield the late
+    // watch is added (records for it only appear in later reads).
+    let mut late_from_answer: Option<usize> = late.as_ref().and_then(|l| if l.2 == 0 { Some(0) } else { None });
+
     // Build the reads and the model.
     let mut answers: Vec<Result<Vec<u8>, i32>> = Vec::new();
     let mut model: Vec<Result<Expected, i32>> = Vec::new();
@@ -534,7 +567,8 @@ fn run_case(case: &Case, ctx: &mut Ctx) {
                 let mut count = 0;
                 while count < *n {
                     let Some(rec) = recs.peek() else { break };
-                    let enc = encode(rec, &wds);
+                    let late_wd = late.as_ref().filter(|_| late_from_answer.is_some_and(|a| answers.len() >= a)).map(|l| l.1);
+                    let enc = encode(rec, &wds, late_wd);
                     if bytes.len() + enc.len() > BUF_SIZE {
                         break;
                     }
@@ -558,9 +592,18 @@ fn run_case(case: &Case, ctx: &mut Ctx) {
                             let path = match known {
                                 Some(k) if rec.name.is_empty() => dirs[k].clone(),
                                 Some(k) => dirs[k].join(&name_path),
+                                None if late_wd == Some(wd) && !forgotten.contains(&wd) => {
+                                    classes.push("late-watch-record");
+                                    let dir = &late.as_ref().unwrap().0;
+                                    if rec.name.is_empty() { dir.clone() } else { dir.join(&name_path) }
+                                }
                                 None => name_path,
                             };
                             model.push(Ok(Expected { wd, mask, cookie: rec.cookie, name: rec.name.clone(), path }));
+                            if late_from_answer.is_none() && late.as_ref().is_some_and(|l| model.len() == l.2) {
+                                // Later reads may carry the late descriptor.
+                                late_from_answer = Some(answers.len() + 1);
+                            }
                         }
                     }
                 }
@@ -626,6 +669,7 @@ fn run_case(case: &Case, ctx: &mut Ctx) {
 
     let waker = WakerHandle::new();
     let mut yielded = 0usize;
+    let mut late_added = false;
     let mut finished = false;
     {
         let mut events = {
@@ -638,6 +682,25 @@ fn run_case(case: &Case, ctx: &mut Ctx) {
             }
             if check_kept(&mut kept, ctx, "across a later poll_next", false) {
                 break;
+            }
+            if let Some((target, wd, after, method)) = late.as_ref().filter(|l| !late_added && yielded >= l.2) {
+                late_added = true;
+                let r = {
+                    let _s = track::scope(track::TAG_A10);
+                    match method % 4 {
+                        0 => events.watch_directory(target.clone(), Interest::ALL, Recursive::No),
+                        1 => events.watch(target.clone(), Interest::ALL, Recursive::No),
+                        2 => events.watch_file(target.clone(), Interest::ALL),
+                        _ => events.watch(target.clone(), Interest::ALL, Recursive::No),
+                    }
+                };
+                if let Err(e) = r {
+                    ctx.infra(format!("watching through the Events iterator failed: {e}"));
+                    sim::sim().enter_hook = None;
+                    return;
+                }
+                let _ = (wd, after);
+                classes.push("watch-added-while-iterating");
             }
             let mut cx = Context::from_waker(&waker.waker);
             DECODE_STEPS.with(|c| c.set(0));
